@@ -84,6 +84,30 @@ theorem idxs_seq_bounded (ds : Array Nat) (hwf : WF ds) :
     (orderWalk ds).Nodup ∧ ∀ i ∈ orderWalk ds, Valid ds i :=
   ⟨(C03.seq_walk_topo ds hwf).2.1, fun i hi => (((C03.seq_walk_topo ds hwf).2.2 i).1 hi).1⟩
 
+/-! ### in-bounds access of the sweep kernels
+
+Every down-to-upstream and up-to-downstream kernel (`fillnodata_upstream`, `accuflux`, `accuflux_ds`,
+`stream_distance`, HAND, floodplains, basins, Strahler and classic order, unit catchments, …) touches,
+for a cell `i` of the order, exactly the indices `i` and `ds[i]`. On a well-formed network with the
+library's own order both are inside every per-cell array: -/
+
+/-- the library's breadth-first order only contains cells whose own index and downstream index are in range -/
+theorem sweep_indices_in_bounds_walk (ds : Array Nat) (hwf : WF ds) :
+    ∀ i ∈ orderWalk ds, i < ds.size ∧ ds[i]! < ds.size := by
+  intro i hi
+  exact ((C03.seq_walk_topo ds hwf).2.2 i).1 hi |>.1
+
+/-- for ANY downstream-first order whose members are cells of the network, the downstream index read
+by a sweep step is again a member of the order (so a sweep never reads a cell it has not initialised) -/
+theorem sweep_downstream_in_order (ds : Array Nat) (seq : List Nat) (htopo : Topo ds seq) :
+    ∀ i ∈ seq, ds[i]! ∈ seq :=
+  Topo.ds_mem htopo
+
+/-- and every index of an order accepted by the executable check `isTopo` is in range -/
+theorem sweep_indices_in_bounds_checked (ds : Array Nat) (seq : List Nat) (h : isTopo ds seq = true) :
+    ∀ i ∈ seq, i < ds.size ∧ ds[i]! ∈ seq :=
+  fun i hi => ⟨(C03.isTopo_sound ds seq h).2 i hi, Topo.ds_mem (C03.isTopo_sound ds seq h).1 i hi⟩
+
 /-! non-vacuity -/
 example : WF #[1, 2, 0, 3, 3, 6, 5, 7, 5, 10] := (C03.wfB_iff _).1 (by decide)
 example : (rank #[1, 2, 0, 3, 3, 6, 5, 7, 5, 10]).isSome = true := by decide +kernel
